@@ -30,7 +30,8 @@ Definition m_size (v : string) : option Z := get_size v.
 Definition eq_oz (a b : option Z) : bool :=
   match a, b with Some x, Some y => Z.eqb x y | None, None => true | _, _ => false end.
 """
-URLS = ["http://h/debian", "http://h/debian-security", "http://h2/ubuntu", "https://h/deb/sub"]
+URLS = ["http://h/debian", "http://h/debian-security", "http://h2/ubuntu", "https://h/deb/sub",
+        "http://user:pw@h3/private"]
 SUITES = ["bookworm", "trixie", "bookworm-updates"]
 COMPS = ["main", "contrib", "non-free"]
 ARCHES = ["amd64", "i386", "arm64"]
@@ -87,7 +88,9 @@ def gen_case(rng):
         elif w < 0.6:
             opts.append(f"mirror_path {slashy(rng, u)} custom/{u.split('/')[-1]}")
         elif w < 0.75:
-            opts.append(f"skip-clean {u}/{rng.choice(['pool/keep', 'x', 'dists/old/'])}")
+            from .pipeline import strip_auth as _sa
+            uu = _sa(u) if rng.random() < 0.7 else u      # skip-clean URLs are usually written without credentials
+            opts.append(f"skip-clean {uu}/{rng.choice(['pool/keep', 'x', 'dists/old/'])}")
         else:
             opts.append(f"{rng.choice(FILTERS)} {slashy(rng, u)} " + " ".join(rng.sample(["pa", "pb", "pc"], rng.randint(1, 2))))
     body = debs + opts
@@ -271,6 +274,44 @@ def run_cases(rep, cases, sb):
                     {"kind": "oracle", "tie": "config", "case": case}, tags={"oracle": "union"})
             # option lines apply to the repository whose URL they name, whatever the trailing slashes
             items = {r[0]: set(r[2:]) for r in o}
+            # ... and ONLY to it: everything of kind B:/I:/F:/K: in effect must be asked for by some line
+            from .pipeline import strip_auth
+            import posixpath
+            from urllib.parse import urlparse
+            expected = {k: set() for k in items}
+            for raw_l in raw:
+                tok = raw_l.split()
+                if len(tok) < 2:
+                    continue
+                if tok[0] == "skip-clean":
+                    if len(tok) < 2:
+                        continue
+                    su = strip_auth(tok[1])
+                    for k in items:
+                        sk = strip_auth(k)
+                        if su.startswith(sk):
+                            pu, pk = urlparse(su).path, urlparse(sk).path
+                            a = [x for x in pu.split("/") if x and x != "."]
+                            b = [x for x in pk.split("/") if x and x != "."]
+                            if a[:len(b)] == b:
+                                expected[k].add("K:" + ("/".join(a[len(b):]) or "."))
+                    continue
+                key = tok[1].rstrip("/")
+                if key not in items:
+                    continue
+                if tok[0] in BOOL_KEYS and len(tok) == 2:
+                    expected[key].add(f"B:{tok[0]}")
+                elif tok[0] == "ignore_errors":
+                    expected[key] |= {f"I:{v}" for v in tok[2:]}
+                elif tok[0] in FILTERS:
+                    expected[key] |= {f"F:{tok[0]}:{v}" for v in tok[2:]}
+            for k, its in items.items():
+                scoped = {x for x in its if x[:2] in ("B:", "I:", "F:", "K:")}
+                if scoped != expected[k]:
+                    found = True
+                    rep.violation(f"options in effect for repository {k} differ from the lines that name it: "
+                                  f"unasked {sorted(scoped - expected[k])[:4]}, missing {sorted(expected[k] - scoped)[:4]}",
+                                  {"kind": "oracle", "tie": "config", "case": case}, tags={"oracle": "option_scope"})
             for raw_l in raw:
                 tok = raw_l.split()
                 if len(tok) < 2:
